@@ -2,11 +2,15 @@ import Driver.Common
 import CoapVerif.Model.Framing
 import CoapVerif.Spec.Framing
 import CoapVerif.Spec.WritePath
+import CoapVerif.Model.FramingOpts
+import CoapVerif.Spec.FramingOpts
 /-!
 Driver for C07.  Lines: `cfg <max>` (new connection), `chunk <hex>` (one read).
-`model`: prints per chunk what the model delivers: `ord k {code tok paylen payfnv}* sig j {code}* closed b`.
+`model`: prints per chunk what the model delivers: `ord k {code tok paylen payfnv opts}* sig j {code}* closed b`
+(opts = `.` or `num:hex,num:hex…`, the options in the order delivered; model: `Model/FramingOpts.lean`).
 `judge`: lines are `chunk <hex> | <observed line>`; keeps the cumulative stream and observations and applies
-`Spec.Framing.judgeStep` to ordinary messages (dropTailOK) and to signalling messages (never dropped).
+`Spec.FramingOpts.judgeStepO` to ordinary messages (dropTailOK; compared: code, token, payload and the options that are
+*due* — `Spec.FramingOpts.due`) and `Spec.Framing.judgeStep` to signalling messages (never dropped).
 -/
 namespace Driver.C07
 open CoapVerif
@@ -16,15 +20,28 @@ def fnvBytes (bs : List UInt8) : UInt64 := bs.foldl (fun h b => fnvMix h b.toUIn
 def summ (code : Nat) (tok pay : List UInt8) : String :=
   s!"{code} {toHex tok} {pay.length} {hex64 (fnvBytes pay)}"
 
+def fmtOpts (os : List (Nat × List UInt8)) : String :=
+  if os.isEmpty then "." else ",".intercalate (os.map (fun o => s!"{o.1}:{toHex o.2}"))
+
+def parseOpts? (w : String) : Option (List (Nat × List UInt8)) :=
+  if w = "." then some [] else
+  (w.splitOn ",").mapM (fun e =>
+    match e.splitOn ":" with
+    | [n, h] => do
+      let n ← n.toNat?
+      let v ← parseHex? h
+      pure (n, v)
+    | _ => none)
+
 structure MState where
   max : Nat := 0
-  st : Model.Framing.St := Model.Framing.init
+  st : Model.FramingOpts.StO := Model.FramingOpts.initO
 
-def fmtModel (newMsgs : List Model.Framing.Msg) (closed : Bool) : String :=
-  let isSig := fun (m : Model.Framing.Msg) => Generated.TcpFraming.signalCodes.contains m.code
+def fmtModel (newMsgs : List Model.FramingOpts.MsgO) (closed : Bool) : String :=
+  let isSig := fun (m : Model.FramingOpts.MsgO) => Generated.TcpFraming.signalCodes.contains m.code
   let ord := newMsgs.filter (fun m => !isSig m)
   let sig := newMsgs.filter isSig
-  let o := String.join (ord.map (fun m => " " ++ summ m.code m.token m.payload))
+  let o := String.join (ord.map (fun m => " " ++ summ m.code m.token m.payload ++ " " ++ fmtOpts m.opts))
   let s := String.join (sig.map (fun m => s!" {m.code}"))
   s!"ord {ord.length}{o} sig {sig.length}{s} closed {if closed then 1 else 0}"
 
@@ -32,12 +49,12 @@ def modelStep (s : MState) (line : String) : MState × String :=
   match words line with
   | "cfg" :: mx :: _ =>
     match mx.toNat? with
-    | some mx => ({ max := mx, st := Model.Framing.init }, "ok")
+    | some mx => ({ max := mx, st := Model.FramingOpts.initO }, "ok")
     | none => (s, "bad-op")
   | ["chunk", hx] =>
     match parseHex? hx with
     | some bs =>
-      let st' := Model.Framing.feed s.max s.st bs
+      let st' := Model.FramingOpts.feedO s.max s.st bs
       let newMsgs := st'.out.drop s.st.out.length
       ({ s with st := st' }, fmtModel newMsgs st'.closed)
     | none => (s, "bad-op")
@@ -54,10 +71,13 @@ def parseObs (ws : List String) : Option (List String × List String × Bool) :=
   match ws with
   | "ord" :: k :: rest =>
     let k ← k.toNat?
-    let ordW := rest.take (4 * k)
-    if ordW.length ≠ 4 * k then none
-    let ords := (List.range k).map (fun i => " ".intercalate ((ordW.drop (4 * i)).take 4))
-    match rest.drop (4 * k) with
+    let ordW := rest.take (5 * k)
+    if ordW.length ≠ 5 * k then none
+    -- the fifth word is the option list as delivered: only the due options are compared
+    let ords ← (List.range k).mapM (fun i => do
+      let os ← parseOpts? ((ordW.drop (5 * i + 4)).headD "")
+      pure (" ".intercalate ((ordW.drop (5 * i)).take 4) ++ " " ++ fmtOpts (os.filter Spec.FramingOpts.due)))
+    match rest.drop (5 * k) with
     | "sig" :: j :: rest2 =>
       let j ← j.toNat?
       let sigs := rest2.take j
@@ -85,8 +105,9 @@ def judgeLine (s : JState) (line : String) : JState × String :=
       match parseHex? hx, parseObs (words obs) with
       | some bs, some (ords, sigs, closed) =>
         let s' := { s with stream := s.stream ++ bs, ord := s.ord ++ ords, sig := s.sig ++ sigs }
-        let view := fun (m : Spec.Framing.Msg) => summ m.code m.token m.payload
-        let r1 := Spec.Framing.judgeStep s'.max s'.stream (fun m => !isSigCode m.code) view s'.ord closed true
+        let view := fun (m : Spec.FramingOpts.MsgO) =>
+          summ m.code m.token m.payload ++ " " ++ fmtOpts (m.opts.filter Spec.FramingOpts.due)
+        let r1 := Spec.FramingOpts.judgeStepO s'.max s'.stream (fun m => !isSigCode m.code) view s'.ord closed true
         let r2 := Spec.Framing.judgeStep s'.max s'.stream (fun m => isSigCode m.code) (fun m => toString m.code) s'.sig closed false
         match r1, r2 with
         | none, none => (s', "ok")
